@@ -4,7 +4,12 @@
    its class default (command_type).  VerificationTrailer.unpack's `while True:` loop consumes the interpreter's fuel
    exactly like the model's vt_loop: the tie holds for every fuel, OutOfFuel included. *)
 From V Require Import Prelude.Base Prelude.PyInt Prelude.PySlice Prelude.PyStr Prelude.PyAst Prelude.PyWorld gen.F_rpc.
-From V Require Import Model.Pdu Model.Request Model.RpcLoop Model.Bind Model.Verification Model.Epm Flow.World_rpc Proofs.Flow_rpc_lib.
+From V Require Import Model.Pdu Model.Request Model.RpcLoop Model.Bind Model.Verification Model.Epm Flow.World_rpc Proofs.Flow_rpc_lib Proofs.Flow_rpc_pdu Proofs.Flow_rpc_bind.
+From V Require Import Proofs.RpcLib Proofs.RpcVerification.
+
+(* in this file a command's ranges are computed through: the kind is known in every lemma *)
+Local Arguments command_ranges c /.
+Local Arguments command_generic_ranges command flags value /.
 Local Open Scope string_scope.
 Local Open Scope list_scope.
 Local Open Scope Z_scope.
@@ -12,15 +17,14 @@ Local Open Scope Z_scope.
 (* Command.pack, the base class method: packs the raw fields (command, flags, value) of any command object *)
 Lemma flow_command_pack mf fuel c :
   run (W mf) fuel k_flow_command_pack [VO (OCommand c)] =
-  chk (in_range 2 (Z.lor (command_type c) (cmd_flags c)) && in_range 2 (len (cmd_value c)))
+  chk (command_generic_ranges (command_type c) (cmd_flags c) (cmd_value c))
       (command_generic_pack (command_type c) (cmd_flags c) (cmd_value c)).
-Proof. unfold command_generic_pack, chk. destruct c as [k t f v]. tie. Qed.
+Proof. unfold command_generic_pack, command_generic_ranges, chk. destruct c as [k t f v]. tie. Qed.
 
 (* on an instance of Command proper (kind CK_Generic) that is the model's command_pack *)
 Lemma flow_command_pack_generic mf fuel c : cmd_kind_of c = CK_Generic ->
-  run (W mf) fuel k_flow_command_pack [VO (OCommand c)] =
-  chk (in_range 2 (Z.lor (cmd_command c) (cmd_flags c)) && in_range 2 (len (cmd_value c))) (command_pack c).
-Proof. intros Hk. rewrite flow_command_pack. unfold command_pack, command_type, command_value. rewrite Hk. reflexivity. Qed.
+  run (W mf) fuel k_flow_command_pack [VO (OCommand c)] = chk (command_ranges c) (command_pack c).
+Proof. intros Hk. rewrite flow_command_pack. unfold command_ranges, command_pack, command_type, command_value. rewrite Hk. reflexivity. Qed.
 
 Lemma flow_command_unpack mf fuel data :
   run (W mf) fuel k_flow_command_unpack [VO (OCls CCommand); VB data] = (let* c := command_unpack data in Ok (VO (OCommand c))).
@@ -30,7 +34,7 @@ Proof.
 Qed.
 
 Lemma flow_cmdbitmask_pack mf fuel c bits : cmd_kind_of c = CK_Bitmask bits ->
-  run (W mf) fuel k_flow_cmdbitmask_pack [VO (OCommand c)] = chk (in_range 4 bits) (command_pack c).
+  run (W mf) fuel k_flow_cmdbitmask_pack [VO (OCommand c)] = chk (command_ranges c) (command_pack c).
 Proof.
   destruct c as [k t f v]. cbn [cmd_kind_of]. intros ->. unfold chk. tie.
 Qed.
@@ -41,9 +45,9 @@ Lemma flow_cmdbitmask_unpack mf fuel flags value :
 Proof. reflexivity. Qed.
 
 Lemma flow_cmdpcontext_pack mf fuel c i t : cmd_kind_of c = CK_PContext i t ->
-  run (W mf) fuel k_flow_cmdpcontext_pack [VO (OCommand c)] = Ok (VB (command_pack c)).
+  run (W mf) fuel k_flow_cmdpcontext_pack [VO (OCommand c)] = chk (command_ranges c) (command_pack c).
 Proof.
-  destruct c as [k ty f v]. cbn [cmd_kind_of]. intros ->. tie.
+  destruct c as [k ty f v]. cbn [cmd_kind_of]. intros ->. unfold chk. tie.
 Qed.
 
 Lemma flow_cmdpcontext_unpack mf fuel flags value :
@@ -53,8 +57,7 @@ Lemma flow_cmdpcontext_unpack mf fuel flags value :
 Proof. tie. Qed.
 
 Lemma flow_cmdheader2_pack mf fuel c pt dr call ctx op : cmd_kind_of c = CK_Header2 pt dr call ctx op ->
-  run (W mf) fuel k_flow_cmdheader2_pack [VO (OCommand c)] =
-  chk (in_range 1 pt && in_range 4 call && in_range 2 ctx && in_range 2 op) (command_pack c).
+  run (W mf) fuel k_flow_cmdheader2_pack [VO (OCommand c)] = chk (command_ranges c) (command_pack c).
 Proof.
   destruct c as [k ty f v]. cbn [cmd_kind_of]. intros ->. unfold chk. tie.
 Qed.
@@ -69,9 +72,9 @@ Lemma flow_cmdheader2_unpack mf fuel flags value :
 Proof. tie. Qed.
 
 Lemma flow_vt_pack mf fuel cs :
-  run (W mf) fuel k_flow_vt_pack [VO (OVT cs)] = Ok (VB (verification_trailer_pack cs)).
+  run (W mf) fuel k_flow_vt_pack [VO (OVT cs)] = chk (forallb command_ranges cs) (verification_trailer_pack cs).
 Proof.
-  unfold verification_trailer_pack, k_flow_vt_pack. hide_comps. tie. comp_step OCommand command_pack. all: tie.
+  unfold verification_trailer_pack, chk, k_flow_vt_pack. hide_comps. tie. all: comp_step OCommand command_ranges command_pack; tie.
 Qed.
 
 Lemma commands_of_inj l : commands_of (map (fun c => VO (OCommand c)) l) = Some l.
@@ -117,3 +120,28 @@ Proof.
   - destruct HL as [env' [He [Hc Hcls]]]. rewrite He. unfold vcommands in *. cbn. lk. rewrite commands_of_inj. reflexivity.
   - rewrite HL. reflexivity.
 Qed.
+
+(* ---- well-formed commands are in range ---- *)
+Lemma wf_command_ranges c : wf_command c = true -> command_ranges c = true.
+Proof.
+  unfold wf_command. intros H. split_wf H.
+  assert (Hl : in_range 2 (Z.lor (command_type c) (cmd_flags c)) = true).
+  { apply in_range_spec. rewrite P_2. apply (cmd_field_split (command_type c) (cmd_flags c)); [|assumption].
+    unfold command_type. destruct (cmd_kind_of c); try (vm_compute; split; congruence).
+    split_wf H0. lia. }
+  cbn [command_ranges command_generic_ranges]. rewrite Hl, H2, andb_true_r.
+  destruct (cmd_kind_of c) as [|bits|i t|pt dr call ctx op]; cbn [cmd_kind_ranges]; [reflexivity|exact H0| |].
+  - split_wf H0. rewrite (wf_syntax_id_ranges _ H0), (wf_syntax_id_ranges _ H3). reflexivity.
+  - split_wf H0. rewrite (mem_in_range 1 _ c_PacketType_values eq_refl H0), (wf_data_rep_ranges _ H6). use_true.
+Qed.
+Lemma wf_commands_ranges cs : wf_commands cs = true -> forallb command_ranges cs = true.
+Proof.
+  induction cs as [|c r IH]; [reflexivity|]. intros H. cbn [wf_commands] in H. cbn [forallb].
+  destruct r as [|c' r'].
+  - apply andb_prop in H. destruct H as [H _]. rewrite (wf_command_ranges c H). reflexivity.
+  - apply andb_prop in H. destruct H as [H Hr]. apply andb_prop in H. destruct H as [H _].
+    rewrite (wf_command_ranges c H), (IH Hr). reflexivity.
+Qed.
+Lemma flow_vt_pack_wf mf fuel cs : wf_commands cs = true ->
+  run (W mf) fuel k_flow_vt_pack [VO (OVT cs)] = Ok (VB (verification_trailer_pack cs)).
+Proof. intros H. rewrite flow_vt_pack, (wf_commands_ranges cs H). reflexivity. Qed.
